@@ -9,7 +9,16 @@
 #![allow(clippy::panic)]
 #![allow(clippy::indexing_slicing)]
 #![allow(missing_docs)]
+#![allow(unused_imports)]
 
 pub mod export;
 pub mod ident;
 pub mod repl;
+
+pub mod access;
+pub mod auth;
+pub mod fault;
+pub mod integrity;
+pub mod proto;
+pub mod session;
+pub mod storage;
